@@ -19,7 +19,8 @@ Durs == {MINDUR - 1, MINDUR, MINDUR + 1}
 Growths == {0, DEC - 1, DEC, DEC + 1}
 Takes == {0, DEC - 1, DEC, DEC + 1}
 Amps == {0, 1, MAXAMP, MAXAMP + 1}
-AssetCounts == {0, 1, 2, 3}
+\* (13, 23: three entries of which one repeats another - literally, or in another letter case: still three entries)
+AssetCounts == {0, 1, 2, 3, 13, 23}
 FeePaths == {"pair.factory_update", "pair.direct_update", "pair.factory_create", "pair.instantiate",
              "trio.factory_update", "trio.direct_update", "trio.factory_create", "trio.instantiate",
              "vault.factory_update", "vault.direct_update", "vault.factory_create", "vault.instantiate",
